@@ -242,6 +242,34 @@ class T(Entity):
 """
 
 
+HIER_SRC = """from cohdl import std, Entity, Port, Bit, BitVector, Unsigned, Signal
+import cohdl
+
+class Sub(Entity):
+    x = Port.input(Unsigned[2])
+    y = Port.output(Unsigned[2])
+    def architecture(self):
+        @std.concurrent
+        def logic():
+            self.y <<= self.x
+
+class T(Entity):
+    ctrl = Port.input(BitVector[3])
+    clk = Port.input(Bit)
+    rst = Port.input(Bit)
+    cond = Port.input(Bit)
+    q = Port.output(Unsigned[2])
+    def architecture(self):
+        # a parent signal with a default that is connected to an INPUT port of a sub-entity keeps its default
+        reg = Signal[Unsigned[2]](1, name="reg")
+        Sub(x=reg, y=self.q)
+        @std.sequential(std.Clock(self.clk){parent})
+        def proc():
+            nonlocal reg
+            reg <<= reg + 1
+"""
+
+
 def derived_designs():
     """(name, source, spec) ; spec = dict(parent=None|(is_async, active_low), op=None|'or'|'and', al, asy, vec)"""
     out = []
@@ -251,6 +279,9 @@ def derived_designs():
         rsig = "self.ctrl[2]" if vec else "self.rst"
         for par in parents:
             ptxt = "" if par is None else f", std.Reset({rsig}, is_async={par[0]}, active_low={par[1]})"
+            if par is not None and not vec:
+                out.append((f"derived/hier-input-default/parent={par}", HIER_SRC.format(parent=ptxt),
+                            dict(parent=par, op=None, al=False, asy=None, vec=False, dflt=1)))
             ops = [None] if vec else [None, "or", "and"]
             for op in ops:
                 if op is None:
@@ -315,10 +346,11 @@ def work_derived(idx):
     r0, c0 = inactive[0] if inactive else (0, 0)
     sim = d.sim(init=dict(clk=0, rst=0 if vec else r0, cond=c0, ctrl=(r0 << 2) if vec else 0))
     drive(sim, 0, r0, c0)
+    dflt = spec.get("dflt", 0)
     q0 = sim.get("q")
-    if q0 != 0:
-        return {"name": name, "status": "violation", "src": src, "what": f"power-up value of q is {q0}, expected the default 0"}
-    start = (sim.snapshot(), 0, r0, c0)
+    if q0 != dflt:
+        return {"name": name, "status": "violation", "src": src, "what": f"power-up value of q is {q0}, expected the default {dflt}"}
+    start = (sim.snapshot(), dflt, r0, c0)
     seen = {start}
     frontier = [(start, [])]
     transitions = 0
@@ -334,10 +366,10 @@ def work_derived(idx):
             act, asy = derived_expect(spec, rst, cond)
             drive(sim, 0, rst, cond)
             if act and asy:
-                q = 0
+                q = dflt
             if ev == "C":
                 drive(sim, 1, rst, cond)
-                q = 0 if act else (q + 1) & 3
+                q = dflt if act else (q + 1) & 3
                 drive(sim, 0, rst, cond)
             got = sim.get("q")
             transitions += 1
